@@ -69,6 +69,7 @@ from exabgp.bgp.message.update.nlri.flow import (
     NumericOperator,
 )
 from exabgp.logger import log, lazymsg
+from exabgp.protocol.resource import BaseValue
 from exabgp.protocol.family import (
     AFI,
 )
@@ -150,6 +151,8 @@ def source(tokeniser: 'Tokeniser') -> Generator[Flow4Source | Flow6Source, None,
         offset: str
         ip, netmask, offset = data.split('/')
         yield Flow6Source.make_prefix6(IP.pton(ip), _prefix_length(netmask, 128), int(offset))
+    else:
+        raise ValueError(f"'{data}' is not a valid source prefix\n  Format: <ipv4>/<length>, <ipv6>/<length> or <ipv6>/<length>/<offset>")
 
 
 def destination(tokeniser: 'Tokeniser') -> Generator[Flow4Destination | Flow6Destination, None, None]:
@@ -171,6 +174,8 @@ def destination(tokeniser: 'Tokeniser') -> Generator[Flow4Destination | Flow6Des
         offset: str
         ip, netmask, offset = data.split('/')
         yield Flow6Destination.make_prefix6(IP.pton(ip), _prefix_length(netmask, 128), int(offset))
+    else:
+        raise ValueError(f"'{data}' is not a valid destination prefix\n  Format: <ipv4>/<length>, <ipv6>/<length> or <ipv6>/<length>/<offset>")
 
 
 # Expressions
@@ -229,6 +234,15 @@ def _value(string: str) -> tuple[str, str]:
     return string[:ls], string[ls:]
 
 
+def _component_value(klass: Type[FlowConditionT], text: str) -> BaseValue:
+    """The value of one operator of a component, which must fit the widest encoding the component has."""
+    value = klass.converter(text)
+    octets = max(klass.VALUE_SIZES)
+    if not 0 <= value < 1 << (8 * octets):
+        raise ValueError(f"'{text}' does not fit the {octets} octet(s) a {klass.NAME} value is encoded on")
+    return value
+
+
 # parse [ content1 content2 content3 ]
 # parse =80 or >80 or <25 or &>10<20
 def _generic_condition(tokeniser: 'Tokeniser', klass: Type[FlowConditionT]) -> Generator[FlowConditionT, None, None]:
@@ -244,6 +258,8 @@ def _generic_condition(tokeniser: 'Tokeniser', klass: Type[FlowConditionT]) -> G
     AND: int = BinaryOperator.NOP
     if data == '[':
         data = tokeniser()
+        if data == ']':
+            raise ValueError(f'an empty list is not a {klass.NAME} condition')
         while True:
             if data == ']':
                 break
@@ -252,7 +268,7 @@ def _generic_condition(tokeniser: 'Tokeniser', klass: Type[FlowConditionT]) -> G
             operator, _ = _operator(data)
             value: str
             value, data = _value(_)
-            yield klass(AND | operator, klass.converter(value))
+            yield klass(AND | operator, _component_value(klass, value))
             if data:
                 if data[0] != '&':
                     raise ValueError('Unknown binary operator {}'.format(data[0]))
@@ -267,7 +283,7 @@ def _generic_condition(tokeniser: 'Tokeniser', klass: Type[FlowConditionT]) -> G
         while data:
             operator, _ = _operator(data)
             value, data = _value(_)
-            yield klass(operator | AND, klass.converter(value))
+            yield klass(operator | AND, _component_value(klass, value))
             if data:
                 if data[0] != '&':
                     raise ValueError('Unknown binary operator {}'.format(data[0]))
